@@ -13,7 +13,7 @@ BUILDS = {
 }
 
 HOOK_COMMITS = ["9bb871a", "5fa190b", "b49a9e6"]
-FIX_COMMITS = ["1a9feb3", "a54e157", "e8eadf0", "4275899", "412168a", "4a034f9", "750341c", "67a090c", "d38134c"]
+FIX_COMMITS = ["1a9feb3", "a54e157", "e8eadf0", "4275899", "412168a", "4a034f9", "750341c", "67a090c", "d38134c", "59353e0"]
 
 # properties not claimed, with the reason (filled while the checks are being built)
 NOT_APPLICABLE = {}
@@ -356,6 +356,28 @@ PROPS = {
         "runs": [
             {"engine": "elect", "quick": 16, "thorough": 16, "what": "exhaustive election-function enumeration (H5 access)"},
             {"engine": "vt", "quick": 3200, "thorough": 300000, "what": "E-A: two real NodeServers, in-memory links, spoofers"},
+        ],
+    },
+    "C19": {
+        "level": "exploration",
+        "technique": "runtime monitoring: generated hostile inputs at every decoding entry point of the real code (frame reader behind a chaos AsyncRead, live NodeServer over an in-memory transport, serialized messages sent to live Send and thread-local actors, derived/job decoders called directly) with panic, liveness, byte-consumption and allocation-size oracles; encode/decode identity checked exhaustively for 8/16-bit types and char, generated otherwise",
+        "level_text": ("(frames) random valid NetworkMessage streams re-read under 1-byte reads, random chunking and spurious Pending decode to the identical messages; a "
+                       "declared length above the limit (limit+1, u64::MAX, isize::MAX+1, random) is rejected with exactly the 8 header bytes consumed and no allocation "
+                       "above 256 KiB (counting global allocator), the limit itself is accepted; bit-flipped, truncated, length-tampered and random streams end Ok/Err(UnexpectedEof|InvalidData), "
+                       "never panic, never stay pending at EOF. (node) hostile bytes on one connection of a live NodeServer: that session stops, the server and a second session keep working. "
+                       "(msgs, msgs-tl) hostile Cast/Call/CallReply payloads (unknown variant, short/trailing/huge-length args, a conversion that panics, absent/short/odd job metadata) "
+                       "interleaved with valid ones to live Send and thread-local actors with a derived enum or a job-envelope message type: actor stays Running, handles every valid message in order, "
+                       "its supervisor sees no failure; derived decoders and the job envelope decoder with a total key never panic; bad metadata is never accepted. "
+                       "(rt) every u8/i8/u16/i16/bool/()/char value and generated values of all other built-in convertible types, vectors, strings, derived enum variants (unit, tuple, struct, rpc) and job options round-trip (floats by bits)."),
+        "level_note": "Panics raised by user conversions are expected and counted as contained; the verdict is taken from the catch_unwind result at the entry point and from actor liveness, not from the panic hook.",
+        "rule": "one scenario = one generated stream/plan; all are non-trivial (each carries at least one hostile or fragmented input); distinct = hash(stream content, mutation kind) / hash(seed, target) / (rt) one per shard pass.",
+        "assumptions": ["in-memory duplex transport stands in for TCP/TLS (the reader is generic over AsyncRead)", "ractor_cluster built with its `verif` feature (H5) to reach the frame reader and wire types"],
+        "runs": [
+            {"engine": "frames", "quick": 32000, "thorough": 1600000, "what": "frame reader under chaos reads, oversize/garbage streams"},
+            {"engine": "node", "quick": 32000, "thorough": 1600000, "what": "E-A: hostile bytes into a live NodeServer"},
+            {"engine": "msgs", "quick": 64000, "thorough": 3200000, "what": "E-A: hostile serialized messages to Send actors + direct decoder calls"},
+            {"engine": "msgs-tl", "quick": 16000, "thorough": 800000, "what": "E-T: same against thread-local actors"},
+            {"engine": "rt", "quick": 160000, "thorough": 8000000, "what": "round-trip identity (exhaustive small types + generated)"},
         ],
     },
 }
